@@ -129,7 +129,7 @@ func (x *Exec) doIndexAddr(fr *frame, st *State, in *ssa.IndexAddr) {
 		s := x.val(fr, st, in.X)
 		et = t.Elem()
 		x.safety(st, "nopanic", "index-in-bounds", smt.And(smt.Le(smt.IntLit(0), idx), smt.Lt(idx, sLen(s))), in)
-		arr, pos = sArr(s), smt.Add(sOff(s), idx)
+		arr, pos = sArr(s), x.at(sOff(s), idx)
 	case *types.Pointer: // pointer to array
 		a := t.Elem().Underlying().(*types.Array)
 		et = a.Elem()
